@@ -20,6 +20,8 @@ PLANS = {
             # two-node cycles, forward references and redeclarations need four name occurrences: one graph, nodes only
             ("any-cycles", "SerdeMC_any.cfg", dict(MaxSlots=4, MaxGraphs=1, MaxNodes=2, MaxIO=1, MaxInits=0, MaxAnn=0, Irvs="{11}", WithFunc='"no"')),
             ("any-functions", "SerdeMC_any.cfg", dict(MaxSlots=2, MaxGraphs=2, MaxNodes=2, Irvs="{9, 11}", WithFunc='"only"')),
+            # control-flow bodies inside function bodies below IR version 10 (value info of function values lives in the main graph)
+            ("any-function-bodies", "SerdeMC_any.cfg", dict(MaxSlots=3, MaxGraphs=3, MaxNodes=2, MaxIO=1, MaxInits=0, Irvs="{9}", WithFunc='"only"')),
         ],
         mut_seeds=260, mut_bytes=12, strace=150, limit_s=10.0,
     ),
